@@ -7,7 +7,7 @@
 (* id j: request i -> j and reply j -> i.                                  *)
 (***************************************************************************)
 EXTENDS Dkg, Json
-CONSTANTS OutFile, Initiator
+CONSTANTS OutFile
 Pairs == {pr \in P \X P : pr[1] < pr[2]}        \* <<i, j>>: i exchanges with the higher id j
 Plans ==
     {[site |-> "prepare", from |-> Initiator, to |-> p, kind |-> f] : p \in P, f \in MsgFaults}
